@@ -24,8 +24,16 @@ RULE = ("cases drawn from one PRNG (VERIF_SEED): one async node of a random sour
         "boundary's pending-task count is observed after every event. At the end every "
         "future is completed, the executor runs until idle and every awaiter is polled. A case is non-trivial when at least "
         "two fetch futures are created and at least one tracked write happens while a fetch is in flight or a task is ready; "
-        "distinct = distinct case hash.")
+        "distinct = distinct case hash. 15 % of the cases are transition programs (shape 6): one task awaits "
+        "AsyncTransition::run(action), the action being a random tree (depth <= 3) of items that create an ArcAsyncDerived / "
+        "AsyncDerived / ArcResource / Resource or await a nested AsyncTransition::run, followed by a history of future "
+        "completions, task polls and run-until-idle in any order; observed: every node's value and loading flag, and for each "
+        "run what the values created inside its action looked like when the code after run(..).await resumed; non-trivial "
+        "when an action creates a value after a nested run has returned.")
 TRUSTED = [
+    "transitions (Reactive/Transition.v): modelled, not verified: std::sync::mpsc as the list of registered ready channels, "
+    "futures::future::join_all (every pending receiver polled at each poll, so any of them wakes the task), the node side "
+    "reduced to 'the task stores the value and fires the ready channel at the first poll after its future completed'",
     "Coq 8.16.1 kernel (coqc); no axioms",
     "extraction to OCaml with ExtrOcamlBasic only, ocamlfind ocamlopt 4.13.1, extract/driver.ml sexp I/O",
     "harness/rx2 (Rust): src/exec.rs executor (tasks polled only on request), src/c10.rs building the node through "
@@ -44,6 +52,9 @@ TRUSTED = [
     "tick are not explored); serialization / hydration is out of scope",
 ]
 ASSUMPTIONS = [
+    "transitions: one task awaits one outermost AsyncTransition::run; nested runs are awaited inside the enclosing action "
+    "(properly nested); two transitions running concurrently in different tasks share the one global slot and are not "
+    "generated; reloads started by a task poll while a transition is installed are not generated",
     "single-threaded executor, atomic polls (the cross-thread windows belong to C19)",
     "the fetcher is a pure function of the inputs it reads when the future is created; futures do not read signals after an await",
     "manual writes store Some(v); a write guard that leaves None while a load is pending, or notify() before any value "
@@ -123,9 +134,137 @@ def gen_case(rng):
     return [shape, wrap, dep, initial, evs]
 
 
+# ------------------------------------------------------------------ transitions (case shape 6)
+def gen_items(rng, depth, budget):
+    out = []
+    for _ in range(rng.choice([1, 2, 2, 3, 4]) if depth else rng.choice([1, 2, 3, 4])):
+        if budget[0] <= 0:
+            break
+        budget[0] -= 1
+        if depth < 3 and rng.random() < 0.35:
+            out.append([1, gen_items(rng, depth + 1, budget)])
+        else:
+            out.append([0, rng.randint(0, 3)])
+    return out
+
+
+def t_layout(prog):
+    """runs in the order they start: (first node, one past the last node) created inside each run's action"""
+    runs = []
+    n = [0]
+
+    def walk(items):
+        r = len(runs)
+        runs.append([n[0], None])
+        for it in items:
+            if it[0] == 0:
+                n[0] += 1
+            else:
+                walk(it[1])
+        runs[r][1] = n[0]
+    walk(prog)
+    return runs, n[0]
+
+
+def gen_transition(rng):
+    """one task awaiting AsyncTransition::run(action); the action creates async derived values / resources and awaits
+    nested runs; the history completes the fetch futures and polls the tasks in any order"""
+    prog = gen_items(rng, 0, [rng.choice([3, 5, 8, 12])])
+    runs, nn = t_layout(prog)
+    evs = []
+    for _ in range(rng.choice([3, 6, 10, 16, 24])):
+        r = rng.random()
+        if r < 0.35:
+            evs.append([4, rng.randint(0, nn)])
+        elif r < 0.75:
+            evs.append([5, rng.choice([0, 0, rng.randint(0, nn + 1)])])
+        else:
+            evs.append([6, [rng.randint(0, 4) for _ in range(rng.randint(0, 3))]])
+    return [6, prog, evs]
+
+
+def oracle_transition(case, impl):
+    prog, evs = case[1], case[2]
+    runs, nn = t_layout(prog)
+    if len(impl) != len(evs) + 2:
+        return "observation count differs from event count"
+    for j, o in enumerate(impl):
+        where = "start" if j == 0 else ("end" if j == len(impl) - 1 else "event %d" % (j - 1))
+        for k, nd in enumerate(o[0]):
+            v = opt(nd[0])
+            if v not in (None, 100 + k):
+                return "%s: node %d reads %r, which its fetcher never produced" % (where, k, v)
+        if len(o[1]) > len(runs):
+            return "%s: %d runs started, the program has %d" % (where, len(o[1]), len(runs))
+        for r, ro in enumerate(o[1]):
+            if ro[0] != 1:
+                continue
+            lo, hi = runs[r]
+            snap = ro[1]
+            if len(snap) != hi - lo:
+                return ("%s: the task awaiting run %d was resumed when %d of the %d async values of its action existed"
+                        % (where, r, len(snap), hi - lo))
+            for i, nd in enumerate(snap):
+                if opt(nd[0]) != 100 + lo + i or nd[1] != 0:
+                    return ("%s: the task awaiting AsyncTransition::run #%d was resumed while async value %d, created inside "
+                            "its action, %s (it read %r)" % (where, r, lo + i,
+                                                             "is still loading" if nd[1] else "has no value", opt(nd[0])))
+    fin = impl[-1]
+    if len(fin[0]) != nn:
+        return "every future completed and the executor is idle, but only %d of %d async values were created" % (len(fin[0]), nn)
+    for k, nd in enumerate(fin[0]):
+        if opt(nd[0]) != 100 + k or nd[1] != 0:
+            return "every future completed and the executor is idle, but node %d holds %r (loading=%d)" % (k, opt(nd[0]), nd[1])
+    if len(fin[1]) != len(runs) or any(ro[0] != 1 for ro in fin[1]):
+        return "every future completed and the executor is idle, but a task awaiting AsyncTransition::run was never resumed"
+    if fin[2]:
+        return "tasks %r are still ready after run-until-idle" % (fin[2],)
+    return None
+
+
+def valid_transition(case):
+    if len(case) not in (3, 4) or (len(case) == 4 and case[3] not in (0, 1)):
+        return False
+
+    def ok_items(items, d):
+        if d > 4 or not isinstance(items, list):
+            return False
+        for it in items:
+            if not isinstance(it, list) or len(it) != 2:
+                return False
+            if it[0] == 0:
+                if it[1] not in (0, 1, 2, 3):
+                    return False
+            elif it[0] == 1:
+                if not ok_items(it[1], d + 1):
+                    return False
+            else:
+                return False
+        return True
+    if not ok_items(case[1], 0):
+        return False
+    for e in case[2]:
+        if not isinstance(e, list) or len(e) != 2 or e[0] not in (4, 5, 6):
+            return False
+        if e[0] == 6:
+            if not isinstance(e[1], list) or any((not isinstance(p, int)) or p < 0 for p in e[1]):
+                return False
+        elif not isinstance(e[1], int) or e[1] < 0:
+            return False
+    return True
+
+
+def show_items(items):
+    KN = ["ArcAsyncDerived", "AsyncDerived", "ArcResource", "Resource"]
+    return "; ".join(KN[it[1]] if it[0] == 0 else "run{%s}.await" % show_items(it[1]) for it in items)
+
+
 def generate(rng, tier):
     n = N_QUICK if tier == "quick" else N_THOROUGH
     for _ in range(n):
+        if rng.random() < 0.15:
+            yield dict(case=gen_transition(rng), kind="transition")
+            continue
         c = gen_case(rng)
         if rng.random() < 0.1:
             # synchronous reads under the Suspense boundary (event 9) are not in the Coq model: such cases are
@@ -144,10 +283,14 @@ def opt(v):
 
 def oracle(item, impl):
     case = item["case"]
+    if case[0] == 6 and len(case) > 3 and case[3] != 0:
+        return None          # model-only witness of the restore = false variant
     if len(case) > 5 and case[5] != 0:
         return None          # pre-fix model witnesses: nothing to demand of the implementation
     if isinstance(impl, str):
         return "panic / harness error: " + impl
+    if case[0] == 6:
+        return oracle_transition(case, impl)
     shape, wrap, dep, initial, evs = case[:5]
     if len(impl) != len(evs) + 2:
         return "observation count differs from event count"
@@ -245,6 +388,19 @@ def oracle(item, impl):
 
 def nontrivial(item, model):
     case = item["case"]
+    if case[0] == 6:
+        # a nested run, and the outer action creates something after it
+        def after_nested(items):
+            seen = False
+            for it in items:
+                if it[0] == 1:
+                    if after_nested(it[1]):
+                        return True
+                    seen = True
+                elif seen:
+                    return True
+            return False
+        return len(case) == 3 and after_nested(case[1]) and any(e[0] == 4 for e in case[2])
     if len(case) > 5 and case[5] != 0:
         return False
     if not isinstance(model, list) or not model:
@@ -264,6 +420,8 @@ def nontrivial(item, model):
 def valid_case(item):
     try:
         case = item["case"]
+        if case and case[0] == 6:
+            return valid_transition(case)
         if len(case) not in (5, 6):
             return False
         shape, wrap, dep, initial, evs = case[:5]
@@ -318,6 +476,10 @@ SH = {0: "reads signals s0,s1", 1: "reads memos s0/2, s1", 2: "reads m3 then m2 
 
 def describe(it):
     case = it["case"]
+    if case[0] == 6:
+        return "one task awaits AsyncTransition::run{%s}%s: %s" % (
+            show_items(case[1]), " [model variant restore = false]" if len(case) > 3 and case[3] else "",
+            "; ".join("%s%s" % (EV.get(e[0], "?"), tuple(e[1:])) for e in case[2]))
     shape, wrap, dep, initial, evs = case[:5]
     head = "%s node, %s, dependent=%s, initial=%r" % (["Arc", "arena", "unsync+refetch (LocalResource-like)", "leptos_server ArcLocalResource", "leptos_server LocalResource"][wrap], SH[shape], dep, initial)
     if len(case) > 5 and case[5]:
@@ -327,12 +489,17 @@ def describe(it):
 
 def coverage_extra(results):
     futs = awaiters = overlapped = 0
+    tr = tr_nested = 0
     for r in results:
         m = r["model"]
+        if r["item"]["case"][0] == 6:
+            tr += 1
+            tr_nested += sum(1 for ro in m[-1][1]) - 1 if isinstance(m, list) and m else 0
+            continue
         if isinstance(m, list) and m:
             futs += m[-1][5]
             awaiters += len(m[-1][3])
-    return dict(fetch_futures_created=futs, awaiters=awaiters)
+    return dict(fetch_futures_created=futs, awaiters=awaiters, transition_cases=tr, nested_transitions=tr_nested)
 
 
 LEVEL_TEXT = ("Coq proofs about an executable Gallina transcription of the spawn_derived! task loop (as a resumable state machine), "
@@ -346,6 +513,10 @@ LEVEL_TEXT = ("Coq proofs about an executable Gallina transcription of the spawn
               "LocalResource and their Arc forms) on the same generated "
               "histories on a harness-owned executor and comparing value, loading flag, ready tasks, awaiter states, the "
               "dependent's log and the number of fetches after every event, plus an independent Python oracle at quiescence.")
+LEVEL_TEXT += (" Transitions: Coq proof, for every tree of nested AsyncTransition::run actions and every completion / poll order, "
+               "that the code after run(..).await resumes only when every async derived value created inside that action holds "
+               "its value (model: global slot + stack of open runs remembering the previously installed transition), with the "
+               "slot-clearing variant refuted; compared with the real AsyncTransition::run on the same generated programs.")
 LEVEL_NOTE = ("Trusted: Coq kernel, extraction + OCaml driver, Rust harness + executor; modelled not verified: memos (assumed to "
               "behave to their spec), channel flag/waker, async RwLock. Sequential atomic polls only (threads: C19). The two "
               "pre-fix behaviours are kept as model variants with refutation witnesses.")
